@@ -12,6 +12,8 @@ CONSTANTS
  EncMaxLen = 0
  MaxLen = 0
  MaxOps = 0
+ TmpPaths = {}
+ QueryKinds = {}
  KeepHist = FALSE
 INVARIANTS LinesRefined ReturnsOK Consumed
 CHECK_DEADLOCK FALSE
